@@ -67,7 +67,9 @@ Proof.
   - inv Ee. reflexivity.
   - destruct (zassoc c (cd_pad_chars cd)) as [s|] eqn:Ez; [|discriminate]. inv Ee.
     cbn [enc_known]. apply zassoc_in in Ez. apply (Hc2 _ Ez).
-  - destruct (bs_of sz); [destruct (cd_bs_checked cd && (z =? 0))|]; try discriminate; inv Ee; reflexivity.
+  - destruct sz as [len nl|bs|bs];
+      [destruct (cd_nulless_furibug_rejected cd && nl && f)|destruct (cd_bs_checked cd && (bs =? 0))|destruct (cd_bs_checked cd && (bs =? 0))];
+      try discriminate; inv Ee; reflexivity.
 Qed.
 
 Lemma params_bs_ok cd : cd_bs_checked cd = true -> forall ps sig,
@@ -84,8 +86,8 @@ Proof.
   - inv Ee. reflexivity.
   - inv Ee. reflexivity.
   - destruct (zassoc c (cd_pad_chars cd)); [|discriminate]. inv Ee. reflexivity.
-  - rewrite Hb in Ee. destruct sz as [len nl|bs|bs]; cbn [bs_of andb] in Ee.
-    + inv Ee. reflexivity.
+  - rewrite Hb in Ee. destruct sz as [len nl|bs|bs]; cbn [andb] in Ee.
+    + destruct (cd_nulless_furibug_rejected cd && nl && f); [discriminate|]. inv Ee. reflexivity.
     + destruct (bs =? 0) eqn:E0; [discriminate|]. inv Ee. cbn [bs_ok]. now rewrite E0.
     + destruct (bs =? 0) eqn:E0; [discriminate|]. inv Ee. cbn [bs_ok]. now rewrite E0.
 Qed.
